@@ -76,7 +76,7 @@ def _params(name: str, nbits: int, C: int, N: int, tier: str):
         return out
     if name == "downsample":
         tfs = range(1, N + 1) if tier == "thorough" else [1, 2, 3, 4, 5, 7, N]
-        return [[tf, ff] for tf in tfs for ff in (1, 2, 4, 5, 8) if C % ff == 0 and aligned(C // ff)]
+        return [[tf, ff] for tf in tfs for ff in (1, 2, 4, 5, 7, 8) if C % ff == 0 and aligned(C // ff)]
     if name == "subband":
         return [[dm, nsub] for dm in DMS for nsub in (1, 2, 4, 5, 8) if C % nsub == 0]
     raise AssertionError(name)
@@ -91,6 +91,7 @@ def shards(tier: str, seed: int) -> list:
     combos = [(nbits, b["C"], name) for nbits in b["depths"] for name in TRANSFORMS]
     # an odd channel count (only possible at whole-byte depths)
     combos += [(nbits, 5, name) for nbits in (8, 32) for name in ("invert", "mask", "extract_samps", "extract_chans", "downsample", "subband", "zerodm")]
+    combos += [(8, 7, "downsample")]  # factor products such as 7 x 7 = 49
     for nbits, Cc, name in combos:
         if True:
             ps = _params(name, nbits, Cc, b["N"], tier)
@@ -121,6 +122,11 @@ def _design(N: int, tier: str):
 
 
 def _input(nbits: int, N: int, C: int, transform: str, seed: int) -> np.ndarray:
+    if C == 7:
+        # mostly constant rows: block sums are exact multiples of the factor product
+        X = fx.label_data(N, C, nbits, seed)
+        X[: N - 2, :] = 3
+        return X
     if transform != "zerodm":
         return fx.label_data(N, C, nbits, seed)
     # data that keeps the zero-DM result inside the representable range
@@ -269,7 +275,7 @@ def run_shard(shard: dict, ctx, res, only=None) -> None:
     site = {"invert": "Filterbank.invert_freq", "mask": "Filterbank.apply_channel_mask", "extract_samps": "Filterbank.extract_samps",
             "extract_chans": "Filterbank.extract_chans", "extract_bands": "Filterbank.extract_bands",
             "downsample": "Filterbank.downsample", "subband": "Filterbank.subband", "zerodm": "Filterbank.remove_zerodm"}[name]
-    design = _design(N, "small" if (C == 5 and shard["tier"] == "quick") else shard["tier"])
+    design = _design(N, "small" if (C in (5, 7) and shard["tier"] == "quick") else shard["tier"])
     for p in params:
         for g, st, ns in design:
             if only is not None and [p, g, st, ns] != only:
